@@ -80,7 +80,7 @@ theorem wfCell_pos {pm : List SPair} (hne : pm ≠ [])
   refine ⟨⟨by simpa using hne, ?_, ?_⟩, ?_⟩
   · intro e he
     obtain ⟨p, hp, rfl⟩ := List.mem_map.mp he
-    exact (strOk_spec (hs p hp)).2.2
+    trivial
   · intro _ hl
     rw [List.getLast?_map] at hl
     cases hg : pm.getLast? with
